@@ -29,7 +29,7 @@ LEVEL = META['level']
 RULE = ('a case = one recorded multi-session history (uniform / mixed / private) checked offline; distinct by (workload kind, seed, history digest); '
         'non-trivial = operations of different sessions really overlapped in time (counted) and at least one write was observed by another session')
 ASSUMPTIONS = ['server scheduler perturbed by sys.setswitchinterval(1e-5) (and LINE yield injection in the thorough tier)', 'client clocks: time.monotonic_ns in one process']
-REQUIRED = ['histories:uniform', 'histories:mixed', 'histories:private', 'ops', 'overlapping-pairs', 'server:dfa-lock-contended', 'server:post-closures', 'monitor:torn-read-checks',
+REQUIRED = ['server:yields-injected', 'histories:uniform', 'histories:mixed', 'histories:private', 'ops', 'overlapping-pairs', 'server:dfa-lock-contended', 'server:post-closures', 'monitor:torn-read-checks',
             'monitor:lincheck-ok', 'monitor:per-session-order', 'monitor:private-slice', 'reads-observing-foreign-write', 'ops:bundled']
 TIMEOUT = {'quick': 300, 'thorough': 2400}
 SOFT = {'quick': 40, 'thorough': 900}
@@ -334,6 +334,13 @@ def private(ctx, srv, rng, nsess, nops, salt):
     ctx.case(('private', salt, len(ops)), nontrivial=True)
 
 
+def account(ctx, srv):
+    ctx.count('server:dfa-lock-contended', srv.stats.get('dfa_contended', 0))
+    ctx.count('server:dfa-enter', srv.stats.get('dfa_enter', 0))
+    ctx.count('server:post-closures', srv.stats.get('post_closures', 0))
+    ctx.count('server:yields-injected', srv.stats.get('yields', 0))
+
+
 def run(ctx):
     rng = ctx.rng
     quick = ctx.tier == 'quick'
@@ -342,13 +349,12 @@ def run(ctx):
         rounds += 1
         if quick and rounds > 1:
             break
-        srv = Server(yield_p=0.0 if quick or rounds % 2 else 0.01)
+        salt = ctx.shard * 1000 + rounds * 10
+        # (1) plain server: tiny switch interval only
+        srv = Server(yield_p=0.0)
         try:
-            salt = ctx.shard * 1000 + rounds * 10
-            for u in range(2 if quick else 4):
+            for u in range(1 if quick else 3):
                 uniform(ctx, srv, rng, nsess=rng.choice([4, 8]) if quick else rng.choice([2, 4, 8, 12]), nops=40 if quick else 100, salt=salt + u)
-                if ctx.expired():
-                    break
             for m in range(NLTAGS if not quick else 15):
                 if ctx.expired():
                     break
@@ -356,10 +362,19 @@ def run(ctx):
             private(ctx, srv, rng, nsess=rng.choice([4, 8, 12]), nops=10 if quick else 30, salt=salt + 7)
         finally:
             srv.stop()
-        ctx.count('server:dfa-lock-contended', srv.stats.get('dfa_contended', 0))
-        ctx.count('server:dfa-enter', srv.stats.get('dfa_enter', 0))
-        ctx.count('server:post-closures', srv.stats.get('post_closures', 0))
-        ctx.count('server:yields-injected', srv.stats.get('yields', 0))
+        account(ctx, srv)
+        # (2) server with LINE-level yield injection (slow, so short): widens the windows between the statements of one request
+        srv = Server(yield_p=0.02)
+        try:
+            uniform(ctx, srv, rng, nsess=4, nops=20 if quick else 60, salt=salt + 8)
+            if not quick:
+                for m in range(10):
+                    if ctx.expired():
+                        break
+                    mixed(ctx, srv, rng, nsess=rng.choice([2, 3, 4]), nops=rng.choice([3, 5]), tagno=m, salt=salt + 9)
+        finally:
+            srv.stop()
+        account(ctx, srv)
 
 
 def replay(ctx, witness):
